@@ -448,6 +448,35 @@ def environments_2d(cx):
 
                         cx.check("compute_environments(from_which): each stored environment x the excluded rows/columns == the whole "
                                  "(untruncated) / bonds within the cap", p, t_env)
+            # a cap that is exactly the exact bond size after k rows (lossless up to there, and SATURATED): the environments
+            # of the first k rows must still be exact after the whole sweep, with late and with early compression
+            if kind == "flat" and D >= 2 and not (isinstance(cyc, tuple) and any(cyc)) and cyc in (False, (False, False)):
+                for fw in ("xmin", "xmax", "ymin", "ymax"):
+                    Lw = Lx if fw[0] == "x" else Ly
+                    Lo = Ly if fw[0] == "x" else Lx
+                    if Lw < 3 or Lo < 2:
+                        continue
+                    for k, late, canonize in itertools.product(range(1, Lw - 1), (True, False), (True, False)):
+                        capk = D ** k
+                        p = dict(base, from_which=fw, mode="mps", canonize=canonize, compress_late=late, tight_cap=capk, rows_exact=k)
+
+                        def t_tight(fw=fw, k=k, late=late, canonize=canonize, capk=capk, Lw=Lw):
+                            envs = tn.compute_environments(fw, max_bond=capk, cutoff=0.0, mode="mps", canonize=canonize,
+                                                           compress_late=late)
+                            # (xmin, i) holds the i rows below row i; (xmax, i) the Lw-1-i rows above it
+                            reach = range(0, k + 1) if fw.endswith("min") else range(Lw - 1 - k, Lw)
+                            for i in reach:
+                                env = envs[fw, i]
+                                e = check_cap(env, capk, D, f"environment {fw},{i}")
+                                if e:
+                                    return e
+                                e = cmp_value(joined_value([env], complement(fw, i)), ex, tol,
+                                              f"environment ({fw},{i}) x complement (cap {capk} = exact bond size after {k} rows)")
+                                if e:
+                                    return e
+
+                        cx.check("compute_environments with a cap equal to the exact bond size: the environments within reach of that "
+                                 "cap x the excluded rows/columns == the whole, bonds within the cap", p, t_tight)
             for which, mode in itertools.product("xy", [env_modes[int(x)] for x in rng.permutation(len(env_modes))[:(2 if cx.quick else 5)]]):
                 Lw = Lx if which == "x" else Ly
                 canonize = bool(rng.integers(2))
